@@ -67,6 +67,8 @@ type c06src struct {
 	// cancelFor: a FetchAll made with this context finds it cancelled (other
 	// callers are served normally)
 	cancelFor context.Context
+	// lookupOnly: providers this source answers for in Fetch but does not list in FetchAll
+	lookupOnly map[peer.ID]c06entry
 }
 
 func (s *c06src) String() string { return s.name }
@@ -102,6 +104,9 @@ func (s *c06src) Fetch(ctx context.Context, pid peer.ID) (*model.ProviderInfo, e
 		return nil, errors.New("source unavailable")
 	}
 	e := s.content[pid]
+	if lo, ok := s.lookupOnly[pid]; ok {
+		e = lo
+	}
 	if !e.present {
 		if s.name == "s1" {
 			return nil, apierror.New(errors.New("not found"), http.StatusNotFound)
@@ -750,4 +755,35 @@ func VerifC06_StagedByCancelledRefreshThenSeenAgain() {
 	got, err := w.pc.Get(context.Background(), "P")
 	verif_Assert(err == nil && got != nil && c06timeIdx(got.LastAdvertisementTime) == ti, "and returned by lookups")
 	verif_Assert(w.fetches() == before, "from the cache")
+}
+
+// C06 (time-to-live of a provider first cached by a lookup miss): P is cached
+// by a lookup miss and no refresh reports it afterwards; however long it has
+// been cached, once the sources stop reporting it P stays visible until its
+// time-to-live has elapsed — counted from the refresh that first did not see
+// it, not from the lookup — and is gone after the next refresh past that.
+func VerifC06_MissCachedThenDisappears() {
+	old := c06pids
+	c06pids = []peer.ID{"P"}
+	defer func() { c06pids = old }()
+	w := c06new()
+	w.srcs[1].lookupOnly = map[peer.ID]c06entry{"P": {present: true, ti: 1}}
+	got, err := w.pc.Get(context.Background(), "P")
+	verif_Assert(err == nil && got != nil, "the lookup miss finds and caches the provider")
+	w.visible["P"], w.shown["P"] = true, 1
+	// time passes (possibly more than the time-to-live) before the first refresh
+	if verif_Bool("timePassesBeforeTheFirstRefresh") {
+		w.tick()
+		if verif_Bool("andMore") {
+			w.tick()
+		}
+	}
+	w.srcs[1].lookupOnly = nil // the provider is gone from every source
+	for i := 0; i < 3; i++ {
+		if i > 0 {
+			w.tick()
+		}
+		w.refreshAbsent()
+	}
+	verif_Reach("history done")
 }
